@@ -372,7 +372,8 @@ class ComposedNode(ConfigNode):
         ret = {}
         if not hasattr(self, '_delete'): # happens when unpickling! children are being populated before attributes are set, but its ok since we assume pickled objects are ok anyway, so no need to fix things
             return ret
-        ret['implicit_delete'] = notnone_or(self._delete, self._default_delete or self._implicit_delete)
+        # same precedence as for the node itself: explicit flag, then the inherited one, then the type's default
+        ret['implicit_delete'] = notnone_or(self._delete, notnone_or(self._implicit_delete, self._default_delete or None))
         ret['implicit_allow_new'] = notnone_or(self._allow_new, self._implicit_allow_new)
         if child is None or getattr(child, '_implicit_safe') is not False: # do not set "implicit_safe" arg if the child exists and already has it set to False (note: I think it's not strictly necessary to handle it here since other checks would still prevent changes)
             ret['implicit_safe'] = notnone_or(self._safe, self._implicit_safe)
